@@ -52,6 +52,14 @@ COLUMN_PROFILE = {
     "colname_reuse": True,
 }
 
+# file paths as sources and targets (C01: "base tables and file paths"): COPY in both directions, INSERT OVERWRITE DIRECTORY,
+# files read in FROM (spark family). Centre: INSERT OVERWRITE DIRECTORY '<p>' SELECT c1 FROM parquet.`<p>`
+PATH_PROFILE = dict(
+    TABLE_PROFILE,
+    kinds=["insert_dir", "copy_from", "copy_to", "copy_query_to", "insert", "ctas", "bare", "view", "insert_cols"],
+    rel=["path", "path_alias", "base", "base_alias", "qualified", "derived", "derived_union", "cte", "cte_alias"],
+)
+
 # further centres of the deviation ball (same alternatives, other defaults at the top level of the query)
 COLUMN_RICH_JOIN = dict(COLUMN_PROFILE, top={"from": ["join"], "rel": ["base_alias"], "nitems": [2], "colref_style": ["qual"]})
 COLUMN_RICH_DERIVED = dict(COLUMN_PROFILE, top={"from": ["join"], "rel": ["derived"], "nitems": [2], "colref_style": ["qual"]})
@@ -129,7 +137,7 @@ def out_names(q, ctes=None):
             for r in sel["from"]["rels"]:
                 if e[1] is not None and e[1] != (r.get("alias") or (r["t"]["n"] if r["k"] == "base" else r.get("name"))):
                     continue
-                if r["k"] == "base":
+                if r["k"] in ("base", "path"):
                     return None
                 sub = out_names(r["q"], ctes) if r["k"] == "derived" else ctes.get(r["name"])
                 if sub is None:
@@ -152,6 +160,10 @@ def gen_rel(ctx: Ctx, depth: int, path: str):
         return True
 
     k = ctx.alts("rel", path, ok)
+    if k in ("path", "path_alias"):  # a file read in FROM: parquet.`dir/p1/` (spark family)
+        ctx.npath = getattr(ctx, "npath", 0) + 1
+        fmt = ctx.ch.pick(path + ".fmt", ["parquet", "csv", "json"])
+        return {"k": "path", "fmt": fmt, "uri": f"dir/p{ctx.npath}/", "alias": ctx.alias() if k == "path_alias" else None}
     if k == "base_target":  # the statement reads the table it writes (below the top level or next to other tables)
         return {"k": "base", "t": T("tgt"), "alias": ctx.alias(), "as": False}
     if k == "base_quoted":
@@ -212,6 +224,8 @@ def rel_info(ctx: Ctx, r):
     """(qualifier to use, exposed names or None)"""
     if r["k"] == "base":
         return (r["alias"] or r["t"]["n"], None)
+    if r["k"] == "path":
+        return (r["alias"], None)
     if r["k"] == "derived":
         return (r["alias"], out_names(r["q"], ctx.ctes))
     return (r["alias"] or r["name"], ctx.ctes[r["name"]])
@@ -380,6 +394,22 @@ def gen_statement(ch, profile, depth=2):
     ctx = Ctx(ch, profile, depth)
     kind = ctx.alts("kinds", "stmt")
     tgt = T("tgt")
+    if kind == "insert_dir":
+        local = ctx.ch.pick("dir.local", [False, True])
+        uri = ctx.ch.pick("dir.path", ["hdfs://out/dir", "/abs/out/dir"])
+        fmt = ctx.ch.pick("dir.fmt", [None, "rowformat"])
+        return {"kind": "insert_dir", "target": None, "path": uri, "local": local, "fmt": fmt, "q": gen_query(ctx, depth, "q")}
+    if kind in ("copy_from", "copy_to", "copy_query_to"):
+        t = ctx.ch.pick("copy.target", [T("tgt"), T("tgt", "s1")])
+        cols = ctx.ch.pick("copy.cols", [None, ["k1", "k2"]])
+        uris = ["s3://bkt/dir/f1.csv", "/abs/dir/f1.csv", "rel/dir/f1.csv"] + ([None] if kind != "copy_from" else [])
+        uri = ctx.ch.pick("copy.path", uris)  # None: STDOUT
+        opts = ctx.ch.pick("copy.opts", [False, True])
+        if kind == "copy_from":
+            return {"kind": "copy_from", "target": t, "collist": cols, "path": uri, "opts": opts}
+        if kind == "copy_to":
+            return {"kind": "copy_to", "target": None, "table": t, "collist": cols, "path": uri, "opts": opts}
+        return {"kind": "copy_to", "target": None, "table": None, "q": gen_query(ctx, depth, "q"), "path": uri, "opts": opts}
     if kind in ("insert", "ctas", "view", "bare"):
         q = gen_query(ctx, depth, "q")
         return {"kind": kind, "target": None if kind == "bare" else tgt, "collist": None, "q": q}
@@ -520,6 +550,8 @@ def r_rel(r, o: R):
         return s
     if r["k"] == "derived":
         return f"({r_query(r['q'], o)}) {o.local(r['alias'])}"
+    if r["k"] == "path":
+        return f"{r['fmt']}.`{r['uri']}`" + (f" {o.local(r['alias'])}" if r["alias"] else "")
     s = o.local(r["name"])
     if r.get("quoted"):
         s = o.quote(s.lower())  # the CTE is defined unquoted, i.e. lower-case: the quoted reference must spell that
@@ -606,6 +638,23 @@ def render(st, o: R | None = None) -> str:
     tgt = o.table(st["target"]) if st.get("target") else None
     if k == "bare":
         return r_query(st["q"], o)
+    if k == "insert_dir":
+        fmt = " ROW FORMAT DELIMITED FIELDS TERMINATED BY ','" if st["fmt"] else ""
+        return f"INSERT OVERWRITE {'LOCAL ' if st['local'] else ''}DIRECTORY '{st['path']}'{fmt} {r_query(st['q'], o)}"
+    if k in ("copy_from", "copy_to"):
+        cl = f" ({', '.join(st['collist'])})" if st.get("collist") else ""
+        if o.dialect == "redshift":
+            opts = " IAM_ROLE 'arn:aws:iam::1:role/r' CSV"
+        elif o.dialect == "snowflake":
+            opts = " FILE_FORMAT = (TYPE = CSV)"
+        else:
+            opts = " WITH (FORMAT csv)"
+        opts = opts if st["opts"] else ""
+        if k == "copy_from":
+            return f"COPY {'INTO ' if o.dialect in ('snowflake', 'tsql', 'databricks') else ''}{tgt}{cl} FROM '{st['path']}'{opts}"
+        what = f"{o.table(st['table'])}{cl}" if st.get("table") else f"({r_query(st['q'], o)})"
+        dest = f"'{st['path']}'" if st["path"] else "STDOUT"
+        return f"COPY {what} TO {dest}{opts}"
     if k == "insert":
         cl = f" ({', '.join(st['collist'])})" if st.get("collist") else ""
         return f"INSERT INTO {tgt}{cl} {r_query(st['q'], o)}"
@@ -668,7 +717,7 @@ def walk_queries(node, fn):
 
 def walk_rels(node, fn):
     if isinstance(node, dict):
-        if node.get("k") in ("base", "derived", "cte"):
+        if node.get("k") in ("base", "derived", "cte", "path"):
             fn(node)
         for v in node.values():
             walk_rels(v, fn)
